@@ -59,6 +59,24 @@ Input / history classes (INPUT-CLASSES.md), measured before -> after (coverage.c
   K7 repeated calls with fresh outputs, fresh thread -> + reused outputs (other shape / other data),           K8 none -> duplicate rows, constant column (PLS)
      another fit in between, NEW DATA IN THE SAME MATRICES, refit at freed addresses (reuse measured)          K10 LDA labels {0,1} sorted -> 3 classes unsorted, 1-based labels
   K9 excluded: the statement does not speak about missing values.  KFoldCV with LDA excluded: the routine has no LDA branch (joins threads it never created; C05's finding).
+
+Round 3, follow-up (two seeded changes)
+  * A generator word that is PROCESS-WIDE but locked (every access of srand_/rand_/randInt/randDouble under one mutex) has no data race, yet the streams of concurrently
+    running workers interleave.  The gate used to park a worker INSIDE the generator (after its store / copy): with the library's lock held there, the worker the word wanted
+    next could never arrive and the run ended as an infrastructure failure.  Now: (a) a LOCK PROBE runs once per harness process - a thread is parked at each of the five hook
+    points in turn while another thread seeds and draws; points at which the second thread does not finish are unsafe, the gate parks workers only at the safe ones (all safe =
+    the fine-grained gate as designed; entry points only = whole calls are the schedule letters; none = no schedule can be forced, the runs are recorded un-gated); steps taken
+    out of turn pull their letter forward, so the word keeps describing what happened; a gate that still gets stuck opens after 6 s, the run is judged as recorded;
+    (b) mode `calls`: two application threads, srand_ + K draws each, interleaved by the harness at CALL boundaries under the words of Rng.tla projected onto calls - nobody is
+    ever parked inside the library, so this choreography can be forced on ANY implementation; TLC's TRead rejects it deterministically when the word is shared;
+    (c) class-table entries with 300 objects (group generation of concurrently started workers always overlaps under natural scheduling);
+    (d) every failure a change of the library can provoke (gate, crashed / hung harness, silent hook, vacuity) is DEFERRED: un-gated blocks are validated first (calls, recorded
+    y-scrambling, y-scrambling thread counts, sweeps, class table, histories), then the ThreadSanitizer block, then the forced words; the failure is raised at the very end and
+    only if no verdict was reached.  A stream perturbation recorded on a library whose lock probe found a lock is reported as RNG:shared-word:lock-serialised.
+  * mode `yscount`: YScrambling (BootstrapRGCV and LOO validation inside; PLS / MLR / LDA) for EVERY requested thread count 1..8, judged by TResult's rounding clause against
+    the 1-thread run (TolRound over the 100 merged bootstrap terms).  The pipelines run their bootstrap with a fixed 100 iterations the caller cannot see, so the statement's
+    "counts dividing the iteration count" does not apply to the caller's thread count: a pipeline that hands the caller's count to that bootstrap runs 102/105/104 iterations
+    for 3, 6, 7, 8 threads (RNG:result-differs:yscount).  On the unchanged tree all counts are bit-identical.
 """
 import os, random, shutil
 from concurrent.futures import ThreadPoolExecutor
@@ -97,7 +115,11 @@ LEVEL_NOTE = ("Trusts TLC and the H1 gate (points before-read / between read and
               "quantifier ('same inputs') but no determinism defect is specific to them: they are emitted as a stratified handful. A crash of a routine on a history class (KFoldCV into an output "
               "of another shape frees the caller's matrix) is memory safety, reported as EXTRA-FINDING. PLS/MLR/LDA workers reach no MT_* kernel on this tree: inner processor counts > 1 only "
               "matter for PCARankValidation. Results across thread (and processor) counts are accepted when equal to rounding (TolRound(m) = (2 + m)e-12 relative, m merged terms); the code "
-              "is bit-identical today, a difference within rounding is SPEC-DRIFT, not a violation.")
+              "is bit-identical today, a difference within rounding is SPEC-DRIFT, not a violation. Follow-up: a lock probe decides at which hook points a worker may be parked (a library "
+              "that serialises its generator calls with a lock keeps the fine-grained gate from working: the gate then works on whole calls, or not at all - the verdict then rests on the "
+              "call-level choreography of two application threads, which needs no parking inside the library, on the recorded y-scrambling and on un-gated runs with 300 objects); every "
+              "infrastructure failure a change of the library can provoke is raised only after all recorded runs were judged. YScrambling is swept over all thread counts 1..8 for both "
+              "validation types and the three learners.")
 
 W = max(1, int(os.environ.get("VERIF_WORKERS", "8")))
 ROUTINES = ["EPLS-bagging", "EPLS-subspace", "EPLS-bagging-subspace", "KMeans-random", "KMeans-pp", "KMeansppCenters", "KMeansRandomGroupsCV-random",
@@ -125,6 +147,10 @@ def _sig(ev, block):
     e = ev.get("e")
     if e == "Crash":
         return "RNG:crash:%s:%s:rc%s" % (ev.get("mode"), ev.get("algo"), ev.get("rc")), "run died or hung: %s" % ev
+    if e == "Read" and run.get("lock", 0):
+        return "RNG:shared-word:lock-serialised", ("thread %s read generator word %s which another thread wrote: the generator word is shared by the threads and its accesses are serialised by a lock "
+                                                   "(lock probe: a thread parked inside the generator keeps the others out at hook points mask %s) - no unsynchronised access, but one worker's srand_ / draws "
+                                                   "land in the middle of another's stream, so results depend on the schedule (%s %s, schedule %s)" % (ev.get("w"), ev.get("v"), run.get("lock"), mode, algo, run.get("word")))
     if e == "Read":
         return "RNG:isolation:%s" % tag, ("thread %s read generator word %s which it did not write last: the seeded stream of one thread is perturbed by another, or the thread "
                                            "never seeded (schedule %s, %s)" % (ev.get("w"), ev.get("v"), run.get("word"), algo))
@@ -178,6 +204,27 @@ def run(ctx):
     if not q:
         mc_jobs += [("MC_Rng_TRUE_4x2.cfg", "mc_rng_perthread_4x2", None), ("MC_Rng_TRUE_5.cfg", "mc_rng_perthread_5x1", None),
                     ("MC_Rng_foreign_TRUE_2x2.cfg", "mc_rng_foreign_perthread_2+1x2", None)]
+    # the harness jobs that need no schedule word (recorded y-scrambling, thread-count sweeps, class table, histories, direct routines ...) run next to the model checking
+    lib = build.build_lib("plain")
+    exe = build.build_harness("c06", ["c06_drv.c"], lib)
+    rd = tlc.rundir()
+    jobs_a = []
+    jobs_a.append([os.path.join(rd, "y.ndjson"), "yscr", ctx.seed, 2 if q else 8])
+    for i in range(1 if q else 4):
+        jobs_a.append([os.path.join(rd, "n%d.ndjson" % i), "counts", ctx.seed + i, 9 if q else 18])
+    jobs_a.append([os.path.join(rd, "st.ndjson"), "stress", ctx.seed + 5, 40 if q else 600])
+    nr = len(ROUTINES)
+    for i in range(2 if q else 30):       # every routine once per job
+        jobs_a.append([os.path.join(rd, "d%d.ndjson" % i), "direct", ctx.seed + 20 + i, nr, i * nr])
+    for i in range(1 if q else 8):
+        jobs_a.append([os.path.join(rd, "e%d.ndjson" % i), "eplscv", ctx.seed + 40 + i, 9 if q else 18])
+    for i in range(4 if q else 36):       # the class table (24 entries), 6 entries per job (thorough: 9 rounds over the table with other data and sizes)
+        jobs_a.append([os.path.join(rd, "c%d.ndjson" % i), "classes", ctx.seed + 60 + i, 6, 6 * i])
+    for i in range(1 if q else 8):
+        jobs_a.append([os.path.join(rd, "h%d.ndjson" % i), "hist", ctx.seed + 80 + i, 9 if q else 18])
+    for i in range(2 if q else 8):        # y-scrambling, every requested thread count 1..8, bootstrap and LOO validation inside, PLS / MLR / LDA
+        jobs_a.append([os.path.join(rd, "yc%d.ndjson" % i), "yscount", ctx.seed + 100 + i // 2, 3, 3 * (i % 2)])
+    jobs_a_fut = pool.submit(hrun.run_many, exe, jobs_a, timeout=1500, workers=2 if q else max(2, W // 2))
     # the ThreadSanitizer build and its cases run next to the model checking
     tsan_rd = tlc.rundir()
     # case index -> learner x scheme (15) x thread count 2..4 (x15) x inner processors 1..2 (x45) x disturber (x90); the quick tier takes one stratified case per learner x scheme
@@ -241,7 +288,7 @@ def run(ctx):
             words = words[:take]
         return words, total
     plans = []      # (label, nw, k, eplsset, words, total, sampled)
-    for nw, k, take in ([(2, 1, None), (2, 2, 40), (3, 1, 40)] if q else [(2, 1, None), (2, 2, None), (3, 1, None)]):
+    for nw, k, take in ([(2, 1, None), (2, 2, 28), (3, 1, 28)] if q else [(2, 1, None), (2, 2, None), (3, 1, None)]):
         words, total = gen("GEN_Rng_%d_%d.cfg" % (nw, k), "gen_sched_%dx%d" % (nw, k), take)
         plans.append(("%dx%d" % (nw, k), nw, k, 0, words, total, False))
         if (nw, k) == (2, 1):
@@ -257,33 +304,22 @@ def run(ctx):
     plans.append(("3x2", 3, 2, 0, words, total, True))
     words, total = gen("GEN_Rng_4_1.cfg", "gen_sched_sim_4x1", 8 if q else 1200, sim=True)
     plans.append(("4x1", 4, 1, 0, words, total, True))
-    words, total = gen("GEN_Rng_foreign_2_1.cfg", "gen_sched_foreign_2+1x1", 30 if q else None)
+    words, total = gen("GEN_Rng_foreign_2_1.cfg", "gen_sched_foreign_2+1x1", 20 if q else None)
     plans.append(("dist:2+1x1", 3, 1, 2, words, total, False))
     words, total22 = gen("GEN_Rng_2_2.cfg", None, None)
     dwords = list(words)
     rnd.shuffle(dwords)
     plans.append(("dist:1+1x2", 2, 2, 2, dwords[:12] if q else dwords, total22, False))
     rnd.shuffle(dwords)
-    dsched_words = dwords[:2 * len(ROUTINES)] if q else dwords
-    lib = build.build_lib("plain")
-    exe = build.build_harness("c06", ["c06_drv.c"], lib)
-    rd = tlc.rundir()
+    dsched_words = dwords[:len(ROUTINES)] if q else dwords
     try:
         jobs = []
-        # y-scrambling and thread-count sweeps first: a repeating schedule violation must not hide them
-        jobs.append([os.path.join(rd, "y.ndjson"), "yscr", ctx.seed, 2 if q else 8])
-        for i in range(1 if q else 4):
-            jobs.append([os.path.join(rd, "n%d.ndjson" % i), "counts", ctx.seed + i, 9 if q else 18])
-        jobs.append([os.path.join(rd, "st.ndjson"), "stress", ctx.seed + 5, 40 if q else 600])
-        nr = len(ROUTINES)
-        for i in range(2 if q else 30):       # every routine once per job
-            jobs.append([os.path.join(rd, "d%d.ndjson" % i), "direct", ctx.seed + 20 + i, nr, i * nr])
-        for i in range(1 if q else 8):
-            jobs.append([os.path.join(rd, "e%d.ndjson" % i), "eplscv", ctx.seed + 40 + i, 9 if q else 18])
-        for i in range(3 if q else 30):       # the class table, 7 entries per job (thorough: 10 rounds over the table with other data and sizes)
-            jobs.append([os.path.join(rd, "c%d.ndjson" % i), "classes", ctx.seed + 60 + i, 7, 7 * i])
-        for i in range(1 if q else 8):
-            jobs.append([os.path.join(rd, "h%d.ndjson" % i), "hist", ctx.seed + 80 + i, 9 if q else 18])
+        cwords = dwords[:24] if q else dwords
+        sf = os.path.join(rd, "calls.txt")
+        with open(sf, "w") as f:
+            for w in cwords:
+                f.write(" ".join(map(str, w)) + "\n")
+        jobs.append([os.path.join(rd, "calls.ndjson"), "calls", ctx.seed + 110, sf, 2])
         dchunk = max(1, (len(dsched_words) + 3) // 4)
         for ci in range(0, len(dsched_words), dchunk):
             sf = os.path.join(rd, "ds_%d.txt" % ci)
@@ -300,19 +336,35 @@ def run(ctx):
                     for w in words[ci:ci + chunk]:
                         f.write(" ".join(map(str, w)) + "\n")
                 jobs.append([os.path.join(rd, "t_%s_%d.ndjson" % (tag, ci)), "sched", ctx.seed + ci, sf, nw, k, eplsset])
-        res = hrun.run_many(exe, jobs, timeout=2400, workers=min(W, 10))
+        # Every failure that a change of the library can provoke (gate that cannot force, crashed or hung harness, silent hook, missing events) is DEFERRED:
+        # whatever was recorded is judged first; the failure is raised at the very end, and only if no verdict was reached.
+        deferred = []
+
+        def defer(msg):
+            deferred.append(msg)
+        ctx.note("models checked, %d schedule plans generated; running %d harness jobs" % (len(plans), len(jobs)))
+        res = hrun.run_many(exe, jobs, timeout=1500, workers=min(W, 10))
+        res = jobs_a_fut.result() + res
+        jobs = jobs_a + jobs
+        ctx.note("harness jobs done")
         events = []
+        stuck_words = 0
         for j, h in zip(jobs, res):
             ev = hrun.read_ndjson(j[0])
-            if h.rc == 3 or any(e.get("e") == "Stuck" for e in ev):
-                raise InfraError("schedule gate got stuck (no verdict): %s" % j[1:])
             if h.rc != 0:
-                raise InfraError("c06 harness failed rc=%d %s: %s" % (h.rc, j[1:], h.err[-1200:]))
+                defer("c06 harness ended with rc=%d %s: %s" % (h.rc, j[1:3], h.err[-400:]))
             if any(e.get("e") == "Overflow" for e in ev):
-                raise InfraError("event recorder overflowed in %s" % j[1:])
-            events += ev
+                defer("event recorder overflowed in %s" % j[1:3])
+            stuck_words += sum(1 for e in ev if e.get("e") == "Stuck")
+            ev = [e for e in ev if e.get("e") not in ("Stuck", "Overflow", "Abandon")]
+            # only complete blocks are judged (a harness that died leaves a torn last block)
+            for b in tlc.split_blocks(ev):
+                if any(e.get("e") in ("End", "Crash") for e in b) or any(e.get("e") == "Broken" for e in b):
+                    events += b
+        if stuck_words:
+            defer("the schedule gate gave up on %d forced words (a worker could not get its turn within 6 s); those runs went on un-gated and were judged as recorded" % stuck_words)
         if not any(e["e"] == "Read" for e in events):
-            raise InfraError("no Read events: hook H1 is not firing (hooks removed or guard off)")
+            defer("no Read events: hook H1 is not firing (hooks removed or guard off)")
         # routines that cannot be driven at all on this tree (crash on every input): outside the verdict, reported once
         for e in events:
             if e["e"] == "Broken" and e["algo"].startswith("KFoldCV"):
@@ -325,11 +377,15 @@ def run(ctx):
                           "dereferences it, upls.c:1448) - the drawing path of this routine cannot be driven; the leave-one-out path (which only seeds) is checked" % (e["algo"], e["rc"]))
         events = [e for e in events if e["e"] != "Broken"]
         blocks = tlc.split_blocks(events)
-        tsan_blocks, tsan_reports = tsan_fut.result()
-        if not any(e["e"] == "Race" and e.get("name") == "racy_cell" for b in tsan_blocks for e in b):
-            raise InfraError("ThreadSanitizer positive control: the deliberate race in the harness was not reported (TSan build not effective)")
+        try:
+            tsan_blocks, tsan_reports = tsan_fut.result()
+        except (InfraError, build.BuildError) as ex:
+            defer("ThreadSanitizer block failed: %s" % str(ex)[:400])
+            tsan_blocks, tsan_reports = [], 0
+        if tsan_blocks and not any(e["e"] == "Race" and e.get("name") == "racy_cell" for b in tsan_blocks for e in b):
+            defer("ThreadSanitizer positive control: the deliberate race in the harness was not reported (TSan build not effective)")
         if sum(1 for b in tsan_blocks if any(e["e"] == "Result" for e in b)) < len(tsan_cases) - 2:
-            raise InfraError("ThreadSanitizer block: only %d of %d cases completed" % (sum(1 for b in tsan_blocks if any(e["e"] == "Result" for e in b)), len(tsan_cases)))
+            defer("ThreadSanitizer block: only %d of %d cases completed" % (sum(1 for b in tsan_blocks if any(e["e"] == "Result" for e in b)), len(tsan_cases)))
         blocks += tsan_blocks
         ctx.cov["tsan"] = dict(cases=len(tsan_cases), reports=tsan_reports, races_by_class={})
         for b in tsan_blocks:
@@ -365,8 +421,8 @@ def run(ctx):
                     d["nonfinite"] += 1
         vac = []      # vacuity findings are raised after the trace validation: a change of the library that silences a path must surface as its verdict (if it has one), not as an infrastructure failure
         for rt in ROUTINES:
-            d = per.get(("direct", rt))
-            if not d or d["result"] == 0 or (d["seed"] == 0 and d["read"] == 0):      # what the events say is for TLC to judge; here only: were there any
+            d = per.get(("direct", rt)) or dict(blocks=0, read=0, seed=0, clock=0, result=0, nonfinite=0)
+            if d["result"] == 0 or (d["seed"] == 0 and d["read"] == 0):      # what the events say is for TLC to judge; here only: were there any
                 vac.append("direct routine %s produced no recorded run (blocks/seeds/reads/results: %s)" % (rt, d))
             if rt.startswith("MatrixInitRandom") and d["clock"] == 0:
                 vac.append("no Clock event for %s: the time() interposer is not in effect" % rt)
@@ -378,7 +434,7 @@ def run(ctx):
         if not any(k[0] == "eplscv" and d["read"] > 0 for k, d in per.items()):
             vac.append("eplscv mode recorded no draws")
         # round 3 paths: every new mode must have produced complete blocks with results (and, where recorded, generator events)
-        for m0, need_reads in (("classes", False), ("hist", False), ("dsched", True), ("tsan", False)):
+        for m0, need_reads in (("classes", False), ("hist", False), ("dsched", True), ("tsan", False), ("yscount", False), ("calls", True)):
             ds = [d for k, d in per.items() if k[0] == m0]
             if not ds or sum(d["result"] for d in ds) == 0 or (need_reads and sum(d["read"] for d in ds) == 0):
                 vac.append("mode %s produced no recorded run (%s)" % (m0, ds))
@@ -390,8 +446,14 @@ def run(ctx):
         allev = [e for b in main_blocks for e in b]
         if not any(e["e"] == "Create" for e in allev) or not any(e["e"] == "Called" for e in allev):
             vac.append("no Create/Called events: hook H5 (libsci_verif_cv) is not firing in the bootstrap CV")
+        gated_runs = [_run_info(b) for b in main_blocks + extra_blocks if _run_info(b).get("mode") in ("sched", "dsched")]
+        lock_masks = sorted(set(r_.get("lock", 0) for r_ in gated_runs))
+        ctx.cov["gate"] = dict(lock_masks=lock_masks, runs=len(gated_runs), ungated_runs=sum(1 for r_ in gated_runs if r_.get("gate", 1) == 0), words_given_up=stuck_words)
+        if lock_masks and lock_masks != [0]:
+            ctx.note("lock probe: a thread parked inside the generator keeps other threads out of it at hook points %s (bit mask(s)); the gate parks workers only at the remaining points%s"
+                     % (lock_masks, " - NO point is left: schedules cannot be forced on this library, the verdict rests on the un-gated blocks and the call-level choreography" if 31 in lock_masks else ""))
         dist_forced = [e.get("forced", 0) for b in main_blocks if _run_info(b).get("dist") == 1 for e in b if e["e"] == "Result"]
-        if not dist_forced or max(dist_forced) == 0:
+        if (not dist_forced or max(dist_forced) == 0) and 31 not in lock_masks:
             vac.append("no forced step in any disturber run (gate not in effect)")
         hist_same = [e.get("addrsame", 0) for b in main_blocks if _run_info(b).get("mode", "").startswith("hist") for e in b if e["e"] == "Result"]
         ctx.cov["history_runs"] = dict(results=len(hist_same), with_address_reuse=sum(1 for x in hist_same if x > 0))
@@ -401,7 +463,7 @@ def run(ctx):
             tags = set(run_.get("cls") or [])
             n_, p_, ny_ = run_.get("n", 0), run_.get("p", 0), run_.get("ny", 0)
             m0 = run_.get("mode", "").split(":")[0]
-            if m0 in ("sched", "counts", "classes", "hist", "yscr", "tsan", "eplscv") and n_ and p_:
+            if m0 in ("sched", "counts", "classes", "hist", "yscr", "yscount", "tsan", "eplscv") and n_ and p_:
                 tags.add("K1:tall" if n_ > p_ + 1 else "K1:wide" if n_ < p_ else "K1:n=p+-1")
                 tags.add("K1:ny>1" if ny_ > 1 else "K1:ny=1")
             for e in b:
@@ -411,7 +473,7 @@ def run(ctx):
                     tags.add("K7:block-at-freed-address")
                 if e["e"] == "Result" and e.get("fresh") == 1:
                     tags.add("K7:fresh-thread")
-            if m0 in ("direct", "counts", "classes", "eplscv", "yscr", "hist"):
+            if m0 in ("direct", "counts", "classes", "eplscv", "yscr", "yscount", "hist"):
                 tags.add("K7:repeated-call-in-process")
             for t in sorted(tags):
                 ctx.cls(t)
@@ -487,13 +549,36 @@ def run(ctx):
             return None
         def is_tsan(b):
             return _run_info(b).get("mode", "").startswith("tsan")
-        main_events = [e for b in main_blocks if not is_tsan(b) for e in b]
+
+        def is_gated(b):
+            return _run_info(b).get("mode") in ("sched", "dsched")
+        # (the deterministic un-gated detectors first: call-level choreography, recorded y-scrambling, y-scrambling thread counts; a tree that fails them repeats the same
+        # signatures in the sampled blocks behind them)
+        prio = {"calls": 0, "yscr": 1, "yscount": 2}
+        ncalls = [0]
+
+        def prio_of(b):
+            m = _run_info(b).get("mode", "").split(":")[0]
+            if m == "calls":
+                ncalls[0] += 1
+                return 0 if ncalls[0] <= 3 else 4       # (a failing tree repeats one signature on every word: three words in front, the rest behind)
+            return prio.get(m, 3)
+        free_blocks = sorted([b for b in main_blocks if not is_tsan(b) and not is_gated(b)], key=prio_of)
+        free_events = [e for b in free_blocks for e in b]
+        gated_events = [e for b in main_blocks if is_gated(b) for e in b]
         tsan_events = [e for b in main_blocks if is_tsan(b) for e in b]
         extra_events = [e for b in extra_blocks for e in b]
-        trace.check_trace(ctx, "TraceRng", "Trace_Rng.cfg", "Trace_Rng_prop.cfg", main_events, on_reject, drop="block", max_rounds=60, label="trace_rng", xmx="8g")
-        # the ThreadSanitizer block on its own: a tree that fails the forced schedules must still have its races attributed
-        trace.check_trace(ctx, "TraceRng", "Trace_Rng.cfg", "Trace_Rng_prop.cfg", tsan_events, on_reject, drop="block", max_rounds=40, label="trace_rng_tsan", xmx="3g")
+        # 1. the un-gated blocks (natural scheduling, call-level choreography, y-scrambling, thread-count sweeps, histories): nothing the gate does can keep them from being judged
+        if free_events:
+            trace.check_trace(ctx, "TraceRng", "Trace_Rng.cfg", "Trace_Rng_prop.cfg", free_events, on_reject, drop="block", max_rounds=60, label="trace_rng_free", xmx="8g")
+        # 2. the ThreadSanitizer block on its own: a tree that fails the forced schedules must still have its races attributed
+        if tsan_events:
+            trace.check_trace(ctx, "TraceRng", "Trace_Rng.cfg", "Trace_Rng_prop.cfg", tsan_events, on_reject, drop="block", max_rounds=40, label="trace_rng_tsan", xmx="3g")
+        # 3. the forced schedules
+        if gated_events:
+            trace.check_trace(ctx, "TraceRng", "Trace_Rng.cfg", "Trace_Rng_prop.cfg", gated_events, on_reject, drop="block", max_rounds=60, label="trace_rng", xmx="8g")
         ctx.traces(len(main_blocks))
+        ctx.note("recorded runs validated (%d blocks inside the statement, %d outside)" % (len(main_blocks), len(extra_blocks)))
         # data races TLC accepted: on state the model does not speak about (RngState.tla OutsideModel) - reported, never a verdict
         for b in tsan_blocks:
             for e in b:
@@ -528,7 +613,18 @@ def run(ctx):
                 def rej(ev, idx, block):
                     rec.calls.append(("rej", ev, block))
                     return None
-                trace.check_trace(rec, "TraceRng", "Trace_Rng.cfg", "Trace_Rng_prop.cfg", evs, rej, drop="block", max_rounds=400, label="trace_rng_extra:%s:%s" % key, xmx="3g")
+                # property layer only, own loop: these groups are EXPECTED to be rejected; one TLC start per rejection (+ one for the accepted rest)
+                ev = list(evs)
+                for _ in range(400):
+                    ok, n, r = tlc.validate_trace("TraceRng", "Trace_Rng_prop.cfg", ev, xmx="3g")
+                    rec.add_tlc(r, "trace_rng_extra:%s:%s" % key)
+                    if ok or n >= len(ev):
+                        break
+                    lo, hi = trace._block_bounds(ev, n)
+                    rej(ev[n], n, ev[lo:hi])
+                    ev = ev[hi:]
+                    if not ev:
+                        break
                 return rec
             futs = [(key, pool.submit(one, key, evs)) for key, evs in sorted(groups.items(), key=lambda kv: str(kv[0]))]
             for key, f in futs:
@@ -548,9 +644,15 @@ def run(ctx):
                         on_reject_extra(c[1], 0, c[2])
             ctx.traces(len(extra_blocks))
 
-        if vac and not ctx.violations:
-            raise InfraError("; ".join(vac[:4]))
-        if reseed_forced == 0 and not ctx.violations:
+        ctx.note("blocks outside the statement validated")
+        deferred += vac
+        if deferred and ctx.violations:
+            ctx.note("infrastructure trouble on this tree, reported after the verdict: %s" % "; ".join(deferred[:4]))
+            ctx.assumptions.append("the run also met infrastructure trouble (judged after the verdict): %s" % "; ".join(deferred[:6])[:600])
+            return
+        if deferred:
+            raise InfraError("; ".join(deferred[:4]))
+        if reseed_forced == 0 and not ctx.violations and 31 not in lock_masks:
             # (with a violation on record the run fails anyway: a change that removed the re-seed is then a verdict, not an infrastructure problem)
             raise InfraError("no forced schedule reached a worker's re-seed inside the forced window (EPLS learner): the reseed shape is not exercised on the code")
         # ---- binding self-tests: one corrupted field per event kind must be rejected
@@ -571,23 +673,28 @@ def run(ctx):
                         k += 1
                 return False
             return f
+        # (the self-tests are independent TLC runs: side by side)
+        bfut = []
+
+        def bst(*a):
+            bfut.append(pool.submit(trace.binding_selftest, ctx, *a))
         b_sched = first_block(lambda r, b: r.get("mode") == "sched" and any(e["e"] == "Read" for e in b))
-        trace.binding_selftest(ctx, "TraceRng", "Trace_Rng.cfg", b_sched, corrupt_field("Read", "v", [1, 2345]), "binding_read")
-        trace.binding_selftest(ctx, "TraceRng", "Trace_Rng.cfg", b_sched, corrupt_field("Seed", "s", [7, 7]), "binding_seed")
+        bst("TraceRng", "Trace_Rng.cfg", b_sched, corrupt_field("Read", "v", [1, 2345]), "binding_read")
+        bst("TraceRng", "Trace_Rng.cfg", b_sched, corrupt_field("Seed", "s", [7, 7]), "binding_seed")
         b_dir = first_block(lambda r, b: r.get("mode") == "direct" and r.get("algo") == "KMeans-pp" and any(e["e"] == "Read" for e in b))
-        trace.binding_selftest(ctx, "TraceRng", "Trace_Rng.cfg", b_dir, corrupt_field("Result", "h", [1, 2, 3], nth=3), "binding_result_direct")
-        trace.binding_selftest(ctx, "TraceRng", "Trace_Rng.cfg", b_dir, corrupt_field("Read", "w", 5), "binding_caller_only")
-        trace.binding_selftest(ctx, "TraceRng", "Trace_Rng.cfg", b_dir, corrupt_field("Wrote", "v", [3, 3], nth=2), "binding_wrote_gen")
+        bst("TraceRng", "Trace_Rng.cfg", b_dir, corrupt_field("Result", "h", [1, 2, 3], nth=3), "binding_result_direct")
+        bst("TraceRng", "Trace_Rng.cfg", b_dir, corrupt_field("Read", "w", 5), "binding_caller_only")
+        bst("TraceRng", "Trace_Rng.cfg", b_dir, corrupt_field("Wrote", "v", [3, 3], nth=2), "binding_wrote_gen")
         b_clk = first_block(lambda r, b: r.get("mode") == "direct" and r.get("ts") == 1 and any(e["e"] == "Clock" for e in b))
-        trace.binding_selftest(ctx, "TraceRng", "Trace_Rng_prop.cfg", b_clk, corrupt_field("Run", "ts", 0), "binding_clock")
+        bst("TraceRng", "Trace_Rng_prop.cfg", b_clk, corrupt_field("Run", "ts", 0), "binding_clock")
         if not any(e["e"] == "Clear" for e in b_dir):
             raise InfraError("no Clear event in a direct block")
         # round 3 event kinds and fields
         b_race = first_block(lambda r, b: r.get("mode") == "tsan:selftest" and any(e["e"] == "Race" for e in b))
-        trace.binding_selftest(ctx, "TraceRng", "Trace_Rng_prop.cfg", b_race, corrupt_field("Race", "var", "XOR128_SEED"), "binding_race_private_state")
-        trace.binding_selftest(ctx, "TraceRng", "Trace_Rng_prop.cfg", b_race, corrupt_field("Race", "var", "worker-slot"), "binding_race_worker_slot")
+        bst("TraceRng", "Trace_Rng_prop.cfg", b_race, corrupt_field("Race", "var", "XOR128_SEED"), "binding_race_private_state")
+        bst("TraceRng", "Trace_Rng_prop.cfg", b_race, corrupt_field("Race", "var", "worker-slot"), "binding_race_worker_slot")
         b_cls = first_block(lambda r, b: r.get("mode") == "classes:boot" and any(e["e"] == "Create" for e in b) and sum(1 for e in b if e["e"] == "Result") >= 2)
-        trace.binding_selftest(ctx, "TraceRng", "Trace_Rng_prop.cfg", b_cls, corrupt_field("Result", "libc", 1), "binding_libc_generator")
+        bst("TraceRng", "Trace_Rng_prop.cfg", b_cls, corrupt_field("Result", "libc", 1), "binding_libc_generator")
 
         def corrupt_rounding(evs):       # another thread count, result off by more than rounding
             for e in evs:
@@ -596,7 +703,7 @@ def run(ctx):
                     e["dq"] = 5000
                     return True
             return False
-        trace.binding_selftest(ctx, "TraceRng", "Trace_Rng_prop.cfg", b_cls, corrupt_rounding, "binding_rounding_bound")
+        bst("TraceRng", "Trace_Rng_prop.cfg", b_cls, corrupt_rounding, "binding_rounding_bound")
 
         def corrupt_repeat(evs):         # the second run with one thread count differs from the first although both are within rounding of the reference
             for e in evs:
@@ -605,7 +712,7 @@ def run(ctx):
                     e["dq"] = 0
                     return True
             return False
-        trace.binding_selftest(ctx, "TraceRng", "Trace_Rng_prop.cfg", b_cls, corrupt_repeat, "binding_repeated_run")
+        bst("TraceRng", "Trace_Rng_prop.cfg", b_cls, corrupt_repeat, "binding_repeated_run")
 
         def rounding_only(evs):          # control of the tolerance clause itself: off by rounding with another thread count is accepted by the property layer, not by the implementation layer
             for e in evs:
@@ -616,8 +723,9 @@ def run(ctx):
         import copy
         evr = copy.deepcopy(b_cls)
         rounding_only(evr)
-        okp, n_, r_ = tlc.validate_trace("TraceRng", "Trace_Rng_prop.cfg", evr)
-        oki, n_, r_ = tlc.validate_trace("TraceRng", "Trace_Rng.cfg", evr)
+        fp = pool.submit(tlc.validate_trace, "TraceRng", "Trace_Rng_prop.cfg", evr)
+        fi = pool.submit(tlc.validate_trace, "TraceRng", "Trace_Rng.cfg", copy.deepcopy(evr))
+        okp, oki = fp.result()[0], fi.result()[0]
         if not okp or oki:
             raise InfraError("rounding clause of TResult: a result equal to rounding across thread counts must pass the property layer (%s) and fail the implementation layer (%s)" % (okp, not oki))
         ctx.steps["control_rounding_clause"] = dict(prop_accepts=okp, impl_rejects=not oki)
@@ -628,7 +736,7 @@ def run(ctx):
                     e["seed"] += 1
                     return True
             return False
-        trace.binding_selftest(ctx, "TraceRng", "Trace_Rng.cfg", b_cls, corrupt_create, "binding_create_seed_formula")
+        bst("TraceRng", "Trace_Rng.cfg", b_cls, corrupt_create, "binding_create_seed_formula")
 
         def drop_create(evs):
             for i, e in enumerate(evs):
@@ -636,11 +744,17 @@ def run(ctx):
                     del evs[i]
                     return True
             return False
-        trace.binding_selftest(ctx, "TraceRng", "Trace_Rng.cfg", b_cls, drop_create, "binding_called_seed_set")
+        bst("TraceRng", "Trace_Rng.cfg", b_cls, drop_create, "binding_called_seed_set")
         b_hist = first_block(lambda r, b: r.get("mode", "").startswith("hist") and any(e["e"] == "Result" for e in b))
-        trace.binding_selftest(ctx, "TraceRng", "Trace_Rng_prop.cfg", b_hist, corrupt_field("Result", "h", [3, 2, 1], nth=1), "binding_history_result")
+        bst("TraceRng", "Trace_Rng_prop.cfg", b_hist, corrupt_field("Result", "h", [3, 2, 1], nth=1), "binding_history_result")
         b_ds = first_block(lambda r, b: r.get("mode") == "dsched" and sum(1 for e in b if e["e"] == "Read") >= 2)
-        trace.binding_selftest(ctx, "TraceRng", "Trace_Rng_prop.cfg", b_ds, corrupt_field("Read", "v", [4, 4321], nth=1), "binding_disturbed_read")
+        bst("TraceRng", "Trace_Rng_prop.cfg", b_ds, corrupt_field("Read", "v", [4, 4321], nth=1), "binding_disturbed_read")
+        b_calls = first_block(lambda r, b: r.get("mode") == "calls" and sum(1 for e in b if e["e"] == "Read") >= 2)
+        bst("TraceRng", "Trace_Rng_prop.cfg", b_calls, corrupt_field("Read", "v", [5, 4321], nth=1), "binding_call_level_read")
+        b_yc = first_block(lambda r, b: r.get("mode", "").startswith("yscount") and sum(1 for e in b if e["e"] == "Result") >= 7)
+        bst("TraceRng", "Trace_Rng_prop.cfg", b_yc, corrupt_rounding, "binding_yscrambling_thread_count")
+        for f in bfut:
+            f.result()
     finally:
         pool.shutdown(wait=False)
         shutil.rmtree(rd, ignore_errors=True)
